@@ -46,7 +46,7 @@ Proof.
   induction body as [|[x off] r IH]; [reflexivity|]. cbn [map fst snd]. now rewrite IH.
 Qed.
 
-Lemma is_array_rn phi t : is_array (rn_dtype phi t) -> is_array t.
+Lemma is_array_rn phi t : Typing.is_array (rn_dtype phi t) -> Typing.is_array t.
 Proof. intros [sz [b [c H]]]. destruct t as [| |sz0 b0 c0]; try discriminate H. exists sz0, b0, c0. reflexivity. Qed.
 
 Section Alpha.
